@@ -10,9 +10,9 @@ import (
 )
 
 type mergeState struct {
-	ls   *lsmState
-	op   *MergeOperator
-	adds []string
+	ls      *lsmState
+	op      *MergeOperator
+	adds    []string
 	sibling bool
 }
 
